@@ -1,6 +1,28 @@
 //! Shared conversions between the crates' public types and the reference models.
 use vmodels::sgr::{Col, Sty};
 
+/// Run `$body` for `$i in 0..$n` as nested loops of at most 8 iterations each, so that a
+/// small harness-wide unwind bound (dictated by the loops of the code under test) covers
+/// any constant `$n` up to 64 without every short loop being unrolled to a large bound.
+/// A macro rather than a closure-taking function: closures make CBMC's symbolic execution
+/// chase pointers to the captured state on every iteration.
+#[macro_export]
+macro_rules! blocks {
+    ($n:expr, $i:ident, $body:block) => {{
+        let mut __b = 0usize;
+        while __b * 8 < $n {
+            let mut __j = 0usize;
+            while __j < 8 && __b * 8 + __j < $n {
+                let $i = __b * 8 + __j;
+                $body
+                __j += 1;
+            }
+            __b += 1;
+        }
+    }};
+}
+
+
 pub fn any_ansi() -> anstyle::AnsiColor {
     let i: u8 = kani::any();
     kani::assume(i < 16);
@@ -87,26 +109,22 @@ pub const EFFECTS: [anstyle::Effects; 12] = [
 /// Build an `Effects` from model bits through the public constants only.
 pub fn effects_from_bits(bits: u16) -> anstyle::Effects {
     let mut e = anstyle::Effects::new();
-    let mut i = 0;
-    while i < 12 {
+    blocks!(12, i, {
         if bits & (1 << i) != 0 {
             e = e.insert(EFFECTS[i]);
         }
-        i += 1;
-    }
+    });
     e
 }
 
 /// Read an `Effects` back into model bits through `contains` only.
 pub fn effects_bits(e: anstyle::Effects) -> u16 {
     let mut bits = 0u16;
-    let mut i = 0;
-    while i < 12 {
+    blocks!(12, i, {
         if e.contains(EFFECTS[i]) {
             bits |= 1 << i;
         }
-        i += 1;
-    }
+    });
     bits
 }
 
@@ -178,8 +196,7 @@ impl<const N: usize> Sink<N> {
         if s.len() > N {
             self.overflow = true;
         }
-        let mut i = 0;
-        while i < N {
+        blocks!(N, i, {
             if i < s.len() {
                 if self.len < N {
                     self.buf[self.len] = s[i];
@@ -188,8 +205,7 @@ impl<const N: usize> Sink<N> {
                     self.overflow = true;
                 }
             }
-            i += 1;
-        }
+        });
     }
     pub fn bytes(&self) -> &[u8] {
         &self.buf[..self.len]
@@ -221,12 +237,29 @@ pub fn sinks_equal<const N: usize>(a: &Sink<N>, b: &Sink<N>) -> bool {
     if a.len != b.len {
         return false;
     }
-    let mut i = 0;
-    while i < N {
+    let mut same = true;
+    blocks!(N, i, {
         if i < a.len && a.buf[i] != b.buf[i] {
-            return false;
+            same = false;
         }
-        i += 1;
+    });
+    same
+}
+
+/// Build a parser parameter list with the given values and ':' structure (`sub[i]`: value
+/// `i` is attached to value `i-1`) through the verification hook.
+pub fn params_from(vals: &[u16], sub: &[bool], n: usize) -> anstyle_parse::Params {
+    let mut subparams = [0u8; 32];
+    let mut values = [0u16; 32];
+    let mut cnt = [1u8; 33];
+    let mut i = n;
+    while i > 0 {
+        i -= 1;
+        values[i] = vals[i];
+        cnt[i] = if i + 1 < n && sub[i + 1] { cnt[i + 1] + 1 } else { 1 };
+        if !sub[i] {
+            subparams[i] = cnt[i];
+        }
     }
-    true
+    anstyle_parse::Params::verif_from_parts(subparams, values, 0, n)
 }
